@@ -10,13 +10,13 @@ CHECK = Check(
     "C12",
     props_modules=["OW.Props.C12", "OW.Props.Rounded.C12"],
     families=[
-        Family("K", rtol=None, label="K-exact", args=["models=" + ",".join(ARITH), "prop=C12", "n=200"]),
+        Family("K", rtol=None, label="K-exact", args=["models=" + ",".join(ARITH), "prop=C12", "n=400"]),
         # Go's math.Pow and libm's pow differ in the last bits. 1e-9 relative. Absolute floor: these two kernels end a
         # step with `store = mass − released·Δt`, which is exactly 0 in ℝ when the storage is empty and round-off
         # residue (≤ a few hundred ulp of the mass) in floating point; the line shows rates (mass/Δt, Δt ≤ 86400), so
         # the residue is up to 1e-14·86400 ≈ 1e-9 of the largest rate. Floor 1e-8 × largest value on the line
         # (60 000 thorough-size cases: 6 residue mismatches at 1e-12, none from 1e-10 upwards).
-        Family("K", rtol=1e-9, atol_scale=1e-8, label="K-pow-rate", args=["models=" + ",".join(RATE), "prop=C12", "n=200"]),
+        Family("K", rtol=1e-9, atol_scale=1e-8, label="K-pow-rate", args=["models=" + ",".join(RATE), "prop=C12", "n=400"]),
         # Fine sediment: 1e-9 relative, floor 1e-12 × largest value (every line carries mass-valued outputs), on the
         # well-conditioned generator (`finegen=conditioned`, see models_constituent.go: its ratio outputs
         # deposition/mass-present are residue/residue when the mass present is pure round-off; 30 000 thorough-size
@@ -24,7 +24,7 @@ CHECK = Check(
         # against the implementation for the oracle only.
         Family("K", rtol=1e-9, atol_scale=1e-12, label="K-pow-fine",
                args=["models=" + ",".join(FINE), "prop=C12", "n=250", "finegen=conditioned"]),
-        Family("K", compare=False, label="K-fine-oracle", args=["models=" + ",".join(FINE), "prop=C12", "n=150"]),
+        Family("K", compare=False, label="K-fine-oracle", args=["models=" + ",".join(FINE), "prop=C12", "n=300"]),
     ],
     # tie A: the loop bodies of the arithmetic-only kernels are REGENERATED from the Go source on every run (harness/cmd/owtranslate)
     # and proved equal to the hand-written model steps (OW/Props/GenTie.lean: gen_eq_*), so the theorems are re-attached to the source
